@@ -41,6 +41,10 @@ type pipelineResult struct {
 
 // runPipeline materialises, generates, type-checks and builds the inner binary.
 func runPipeline(c *Ctx, cs *spec.Case, race bool) (*pipelineResult, string) {
+	return runPipelineY(c, cs, race, false)
+}
+
+func runPipelineY(c *Ctx, cs *spec.Case, race, yields bool) (*pipelineResult, string) {
 	b, err := c.materialize(cs)
 	if err != nil {
 		return &pipelineResult{Discard: "materialize-error", Detail: err.Error()}, ""
@@ -76,6 +80,21 @@ func runPipeline(c *Ctx, cs *spec.Case, race bool) (*pipelineResult, string) {
 		names = append(names, n)
 	}
 	sort.Strings(names)
+	if yields {
+		// adapters are derived from the analysed (uninstrumented) signatures; instrument afterwards
+		for _, n := range names {
+			if _, err := b.adapter(n); err != nil {
+				pr.Discard, pr.Detail = "inner-build-error", err.Error()
+				return pr, ""
+			}
+		}
+		y, err := b.instrumentYields()
+		if err != nil {
+			pr.Discard, pr.Detail = "yield-instrumentation-error", err.Error()
+			return pr, ""
+		}
+		b.Yields = y
+	}
 	bin, br, err := b.buildInner(names, race)
 	if err != nil {
 		pr.Discard = "inner-build-error"
@@ -273,6 +292,9 @@ func readBand(b *Built, inj string) string {
 	src, err := os.ReadFile(b.bandPath(f))
 	if err != nil {
 		return ""
+	}
+	if o, ok := b.bandOrig[f]; ok {
+		src = []byte(o)
 	}
 	decl, _ := os.ReadFile(filepath.Join(b.L.AppDir, f))
 	return "--- " + f + "\n" + string(decl) + "\n--- " + bandName(f) + "\n" + string(src)
